@@ -566,7 +566,10 @@ func checkC06(c *ctx) {
 	if !mergeRounds(c, c.n(110, 2500), false, parts, false, "C06", nil) {
 		return
 	}
-	boundaryMerges(c, parts, "C06", 0)
+	if !boundaryMerges(c, parts, "C06", 0) {
+		return
+	}
+	wideMerges(c, parts, "C06")
 }
 
 // boundaryMerges: cardinalities cross a multiple of 1024 between inputs and output.
@@ -630,6 +633,60 @@ func boundaryMerges(c *ctx, parts []int, prop string, limit int) bool {
 		if bad != "" {
 			c.Violation(fmt.Sprintf("%s boundary merge: %d docs with term cardinalities %v, %d of term t0's documents deleted, chunk mode %d\n%s", prop, g.nd, g.cards, len(drops), g.mode, clip(bad)), false)
 			return false
+		}
+	}
+	return true
+}
+
+// wideBatch: two documents over nf distinct field names (the field count and the field ids cross the
+// one-byte varint); with locs every token carries a location of its own field.
+func wideBatch(nf int, id string, locs bool) zh.Batch {
+	var b zh.Batch
+	for d := 0; d < 2; d++ {
+		doc := zh.Doc{Fields: []zh.Field{zh.IDField(fmt.Sprintf("%s%03d", id, d))}}
+		for f := 0; f < nf-1; f++ {
+			if (f+d)%3 == 0 && d == 1 {
+				continue
+			}
+			tok := zh.Tok{Term: fmt.Sprintf("t%d", f%4), Freq: 1}
+			if locs {
+				tok.Locs = []zh.Loc{{Pos: uint64(1 + f%5), Start: uint64(f), End: uint64(f + 2)}}
+			}
+			doc.Fields = append(doc.Fields, zh.Field{Name: fmt.Sprintf("n%03d", f), Len: 1, DV: f%7 == 0, Stored: f%5 == 0, Typ: 't', Val: []byte{byte('a' + f%26)},
+				Toks: []zh.Tok{tok}})
+		}
+		b = append(b, doc)
+	}
+	return b
+}
+
+// wideMerges: merges whose output has 127..300 fields, the inputs having different field lists (the
+// re-encoding path) or the same (the byte-copy path); every token carries a location.
+func wideMerges(c *ctx, parts []int, prop string) bool {
+	for _, nf := range []int{127, 128, 129, 130, 300} {
+		for _, same := range []bool{false, true} {
+			e1, err := newBuilt(c, wideBatch(nf, "w", true), 1026, c.R.Bool())
+			must(err)
+			b2 := wideBatch(nf, "v", true)
+			if !same {
+				b2 = wideBatch(nf-3, "v", true)
+				b2[0].Fields = append(b2[0].Fields, zh.Field{Name: "zlast", Len: 1, Typ: 't', Toks: []zh.Tok{{Term: "z", Freq: 1, Locs: []zh.Loc{{Pos: 1, Start: 0, End: 1}}}}})
+			}
+			e2, err := newBuilt(c, b2, 1026, c.R.Bool())
+			must(err)
+			mc := &mergeCase{ins: []*segEnt{e1, e2}, drops: [][]uint64{{1}, nil}, nilBM: []bool{false, true}, mode: 1026}
+			c.Case(fmt.Sprintf("wide-merge-%d-%v", nf, same), true)
+			c.Count("merges_with_127_or_more_fields")
+			bad, r, _ := mergeVerdict(c, mc, parts, false)
+			if r != nil && r.seg != nil {
+				r.seg.Close()
+			}
+			e1.close()
+			e2.close()
+			if bad != "" {
+				c.Violation(fmt.Sprintf("%s merge of two segments with %d field names (same field lists: %v), every token with a location, one document deleted\n%s", prop, nf, same, clip(bad)), false)
+				return false
+			}
 		}
 	}
 	return true
